@@ -1,20 +1,123 @@
 import AriVerif.Hex
 import AriVerif.Codec
+import AriVerif.KeepAlive
+import AriVerif.Gen.Version
+import AriVerif.Gen.Exc
+import AriVerif.Gen.Pool
+import AriVerif.Proto
+import AriVerif.Spec.Ari
 /-!
 Line-protocol driver: one operation per input line, one answer line per operation.
 Every string travels as lower-case hex of its UTF-8 bytes (`-` = empty).
 Only model definitions are executed here; nothing is defaulted: an unknown or ill-formed
 operation answers `bad-op`.
 -/
-open Ari
+open Ari Ari.Proto
 
 def showDec : Dec → String
   | .val none => "ok n"
   | .val (some s) => "ok s:" ++ Hex.ofStr s
   | .invalid => "invalid"
 
+/-- `n` | `<int>/<nat>` -/
+def parseRat? (t : String) : Option (Option Rat) :=
+  if t = "n" then some none else
+  match t.splitOn "/" with
+  | [a, b] => match a.toInt?, b.toNat? with
+    | some n, some d => if d = 0 then none else some (some (mkRat n d))
+    | _, _ => none
+  | _ => none
+
+def showRat (r : Rat) : String := toString r.num ++ "/" ++ toString r.den
+
+def parseOptInt? (t : String) : Option (Option Int) :=
+  if t = "n" then some none else (t.toInt?).map some
+
 def stepLine (line : String) : String :=
-  match line.splitOn " " with
+  match (line.splitOn " ").filter (· ≠ "") with
+  | ["parse", l] =>
+      match Hex.toStr? l with
+      | some s => match parseRequest s with
+        | none => "none"
+        | some (id, m, data) => " ".intercalate ("ok" :: (id :: m :: data).map Hex.ofStr)
+      | none => "bad-op"
+  | "read" :: m :: toks =>
+      match hexToks? toks with
+      | some ts => match decodeRequest m ts with
+        | none => "unknown"
+        | some (.error e) => "err " ++ e.method
+        | some (.ok a) => "ok " ++ showArgs a
+      | none => "bad-op"
+  | "meta" :: m :: n :: rest =>
+      match n.toNat? with
+      | some k =>
+        match hexToks? (rest.take k), parseOutcomes (rest.drop k) [] with
+        | some ts, some script => match metaHandle m ts script with
+          | none => "unknown"
+          | some (.error e) => "err " ++ e.method
+          | some (.ok (calls, r)) => "ok " ++ " ".intercalate (calls.map showCall) ++ " ; " ++ showExec r
+        | _, _ => "bad-op"
+      | none => "bad-op"
+  | "exc" :: m :: rest =>
+      match parseExc rest with
+      | some (e, []) => "ok " ++ Hex.ofStr (writeError m e)
+      | _ => "bad-op"
+  | "w" :: "ud3" :: rest =>
+      match parseMany (rest.takeWhile (fun t => !(t.startsWith "E" && t.length ≤ 4))) [] with
+      | some [item, rid, snap] =>
+        match parseEv (rest.dropWhile (fun t => !(t.startsWith "E" && t.length ≤ 4))) with
+        | some (ev, []) => showW (writeUpdateMap item rid snap ev)
+        | _ => "bad-op"
+      | _ => "bad-op"
+  | "w" :: "eos" :: rest =>
+      match parseMany rest [] with
+      | some [a, b] => showW (writeEos a b)
+      | _ => "bad-op"
+  | "w" :: "cls" :: rest =>
+      match parseMany rest [] with
+      | some [a, b] => showW (writeCls a b)
+      | _ => "bad-op"
+  | ["w", "fal", msg] =>
+      match Hex.toStr? msg with
+      | some m => "ok " ++ Hex.ofStr (writeFailure m)
+      | none => "bad-op"
+  | "w" :: "names" :: m :: rest =>
+      match parseMany rest [] with
+      | some [v] => showW (writeNames m v)
+      | _ => "bad-op"
+  | "w" :: "itemdata" :: m :: rest =>
+      match (parseMany rest []).bind triples with
+      | some ds => showW (writeItemData m ds)
+      | none => "bad-op"
+  | "w" :: "nu" :: m :: rest =>
+      match parseMany rest [] with
+      | some [a, b] => showW (writeNotifyUser m a b)
+      | _ => "bad-op"
+  | ["w", "void", m] => "ok " ++ Hex.ofStr (writeVoid m)
+  | ["w", "initok", m, v] =>
+      match parseOptStr? v with
+      | some ov => "ok " ++ Hex.ofStr (writeInitOk m ov)
+      | none => "bad-op"
+  | ["w", "rac", u, p] =>
+      match parseOptStr? u, parseOptStr? p with
+      | some a, some b => "ok " ++ Hex.ofStr (writeCredentials a b)
+      | _, _ => "bad-op"
+  | "w" :: "encstr" :: rest =>
+      match parseMany rest [] with
+      | some [v] => showW (encStr v)
+      | _ => "bad-op"
+  | "w" :: "encval" :: rest =>
+      match parseMany rest [] with
+      | some [v] => showW (encodeValue v)
+      | _ => "bad-op"
+  | ["hint", cfg, h] =>
+      match parseRat? cfg, parseRat? h with
+      | some c, some h => let e := effective c h; "ok " ++ showRat e.1 ++ " " ++ showRat e.2
+      | _, _ => "bad-op"
+  | ["pool", sz, cpu] =>
+      match parseOptInt? sz, parseOptInt? cpu with
+      | some s, some c => "ok " ++ toString (Gen.poolSize s c)
+      | _, _ => "bad-op"
   | ["enc", "n"] => "ok " ++ Hex.ofStr (encodeString none)
   | ["enc", v] =>
       if v.startsWith "s:" then
